@@ -46,6 +46,20 @@ def splitters(rng):
         bad = check_partition('GeneralVolumeSplitter(modes=%r, noise=%r)' % (modes, noise), M, modes, x, V, d, e, False)
         if bad:
             return bad
+        # binomial species follow the DAUGHTER'S OWN volume fraction (visible with partition noise and large counts: 6-sigma band)
+        if it % 6 == 0:
+            gb = GeneralVolumeSplitter()
+            gb.py_set_partitioning({}, M)
+            gb.py_set_partition_noise(0.4)
+            big = np.array([40000.0] * len(SP))
+            pb = VolumeCellState(); pb.py_set_state(big.copy()); pb.py_set_volume(V); pb.py_set_time(0.5)
+            db, eb = gb.py_partition(pb)
+            frac = db.py_get_volume() / V
+            share = db.py_get_state() / big
+            tol = 6 * (frac * (1 - frac) / 40000.0) ** 0.5
+            if (abs(share - frac) > tol).any():
+                return dict(reproduced=True, call='GeneralVolumeSplitter(all binomial, noise=0.4).py_partition(state=40000 per species, volume=%r)' % V,
+                            what='share of the molecules received by daughter 1 vs its share of the volume', observed=share.tolist(), expected='%r +- %r' % (frac, tol))
         # lineage splitter
         LM = LineageModel(species=SP, reactions=[(['A'], ['B'], 'massaction', {'k': 1.0})], initial_condition_dict={s: 1 for s in SP})
         opts = dict(modes)
